@@ -173,10 +173,7 @@ def mat(v, built):
         if '$origin_of' in v:
             return built.handles[v['$origin_of']].origin_reference
         if '$dt' in v:
-            y, mo, d, h, mi, s, us = v['$dt']
-            tz = v.get('tz')
-            tzinfo = None if tz is None else _dt.timezone(_dt.timedelta(minutes=tz))
-            return _dt.datetime(y, mo, d, h, mi, s, us, tzinfo=tzinfo)
+            return make_datetime(v)
         if '$enum' in v:
             from dliswriter import enums
             cls, member = v['$enum'].split('.')
@@ -229,6 +226,28 @@ class Built:
 
 def _exc(e):
     return ('exc', type(e).__name__, str(e)[:300])
+
+
+class RepeatedHour(_dt.tzinfo):
+    """A zone in which EVERY wall-clock time occurs twice (as during the hour in which daylight saving time ends): two hours
+    ahead of UTC the first time (fold=0), one hour ahead the second time (fold=1)."""
+
+    def utcoffset(self, d_):
+        return _dt.timedelta(hours=1 if getattr(d_, 'fold', 0) else 2)
+
+    def dst(self, d_):
+        return _dt.timedelta(hours=0 if getattr(d_, 'fold', 0) else 1)
+
+    def tzname(self, d_):
+        return 'RH'
+
+
+def make_datetime(v: dict) -> _dt.datetime:
+    """{'$dt': [y, mo, d, h, mi, s, us], 'tz': minutes | None | 'RH', 'fold': 0|1} -> datetime."""
+    y, mo, d, h, mi, s, us = v['$dt']
+    tz = v.get('tz')
+    tzinfo = None if tz is None else (RepeatedHour() if tz == 'RH' else _dt.timezone(_dt.timedelta(minutes=tz)))
+    return _dt.datetime(y, mo, d, h, mi, s, us, tzinfo=tzinfo, fold=int(v.get('fold', 0)))
 
 
 def build(spec: dict) -> Built:
@@ -285,6 +304,12 @@ def mat_checked(v, built):
 
 
 def run_op(b: Built, i: int, op: dict, source: str = 'inline') -> None:
+    if op.get('in_hc'):
+        # the call is made inside `with high_compatibility_mode():`; an exception it raises leaves the block
+        from dliswriter import high_compatibility_mode
+        with high_compatibility_mode():
+            run_op(b, i, {k: v for k, v in op.items() if k != 'in_hc'}, source)
+        return
     kind = op['op']
     if kind in schema.TYPES:
         lf = b.lfs[op.get('lf', 0)]
